@@ -54,6 +54,11 @@ thread_local! {
     static LAST_PANIC: RefCell<String> = RefCell::new(String::new());
 }
 
+/// switch the per-thread classification / counting off (fuzz targets: keep the target lean)
+pub fn set_counting(on: bool) {
+    COUNTING.with(|c| c.set(on));
+}
+
 pub fn install_panic_hook() {
     std::panic::set_hook(Box::new(|info| {
         let msg = if let Some(s) = info.payload().downcast_ref::<&str>() {
@@ -172,6 +177,9 @@ impl Shared {
     }
     /// publish the case being executed (for the stall watchdog; C04/C05/C12)
     pub fn watch(&self, v: impl FnOnce() -> Value) {
+        if !Self::counting() {
+            return;
+        }
         let id = std::thread::current().id();
         self.watch.lock().unwrap().insert(id, (Instant::now(), v()));
     }
